@@ -23,8 +23,21 @@ META = {
             "AddRef/AddEnd/Need/Poison commands all execute iff the body is ctx_valid (simulation), hence in every "
             "state reachable by any history of connectBlock/setState/comparePopScore (any scorer) the active chain "
             "consists of contextually valid blocks only (C04_active_payloads_valid, C04_active_block_valid; uses "
-            "reachable_good / applied_blocks_executed of the state machine model). Tie to the code: extracted model vs rebuilt library on every verdict of generated "
-            "histories (16 rule-breaking mutations + 6 boundary non-violations at random depth, random call orders), "
+            "reachable_good / applied_blocks_executed of the state machine model). Forks (Rules/Fork*.v): the verdict on "
+            "a candidate depends on its own chain only, whatever other forks exist or were removed "
+            "(C04_verdict_independent_of_other_forks, C04_verdict_iff_own_chain_valid, C04_dup_rule_own_chain), and the "
+            "payload index shared by all forks as coded (add per block, remove per block with key clean-up only for an "
+            "empty set, isStatefulDuplicate) answers exactly the per-chain duplicate check after any history of blocks "
+            "accepted and dropped (C04_shared_index_dup_check_is_own_chain). "
+            "Tie to the code: extracted model vs rebuilt library on every verdict of generated "
+            "histories (22 rule-breaking mutations + 9 boundary non-violations at random depth, random call orders; "
+            "shared-payload histories: the same VBK context block / VTB / ATV in blocks of 2-3 sibling forks, one holder "
+            "removed by removeSubtree / removePayloads / the mempool's temporary block (taken and removed, or tried and "
+            "withdrawn) / deallocation of a parallel block at finalization, then repeated in a chain that still holds it "
+            "(refused) and in one that does not (accepted); restart histories: incremental saves and a reload (a fresh "
+            "instance loaded from the storage continues the history) around BTC blocks referenced by several applied VTBs "
+            "at different VBK heights, one of them withdrawn again, then a VTB valid only through the withdrawn reference "
+            "(refused) and the boundary ones (accepted)), "
             "plus the direct oracle: an independent C++ re-check of every payload on the active chain.",
     "note": "Documented deviation of the observation: the property text demands comparePopScore > 0 for an invalid "
             "candidate; when neither chain crosses a keystone boundary the comparator answers 0 before it examines the "
@@ -52,6 +65,18 @@ def cases_for(ctx):
                 continue
             k += 1
             cases.append(("h%d" % k, g))
+    # the same payload in blocks of sibling forks, one holder removed (removeSubtree / removePayloads / the mempool's
+    # temporary block / deallocation of a parallel block at finalization), then repeated
+    for _ in range(2 if ctx.tier == "quick" else 30):
+        for kind, path in R.shared_combos():
+            k += 1
+            cases.append(("s%d" % k, R.case_shared(r.fork(), kind, path)))
+    # restarts inside the history (incremental saves, reload): BTC blocks referenced by several applied VTBs at
+    # different VBK heights, one of them withdrawn again, then a VTB that is valid only through the withdrawn reference
+    for _ in range(3 if ctx.tier == "quick" else 40):
+        for path in R.RESTART_PATHS:
+            k += 1
+            cases.append(("t%d" % k, R.case_restart(r.fork(), path)))
     return cases
 
 
@@ -63,5 +88,7 @@ def run(ctx):
         cases = R.load_corpus(vlib, "C04") + cases_for(ctx)
     ctx.cov["rule"] = ("one history per (rule-breaking mutation | boundary non-violation) x round: random honest tree, "
                        "offending block at random depth, 0-2 descendants, random header/body order and set/cmp order; "
+                       "one history per (payload kind x removal path) x round with a payload shared between sibling forks; "
+                       "one history per withdrawal path x round with saves and a restart; "
                        "distinct = distinct (rule, depth, descendants, script length)")
     R.check(vlib, ctx, "C04", cases)
